@@ -744,6 +744,12 @@ func runAttack(c *simkit.Choice, r *simkit.Rec, a *attackSession, f *recFault, s
 				r.Violate("data-after-error", site, fmt.Sprintf("Read after the error returned %d bytes", vict.AfterN))
 				return
 			}
+			if f.Kind == rfTruncClose && vict.ReadDone && vict.ReadErr == nil && rl.FiredLen > 5 && f.N%rl.FiredLen >= 5 {
+				// the stream ended inside the body of a record: a truncated record must
+				// not look like a clean end of stream
+				r.Violate("truncation-undetected", site, fmt.Sprintf("the stream was cut %d bytes into a %d-byte record and the victim read a clean EOF", f.N%rl.FiredLen, rl.FiredLen))
+				return
+			}
 			r.Outcome = "early-end-prefix-only"
 			return
 		}
